@@ -197,6 +197,7 @@ fn same_class(prop: &str, plan: &Plan, want: &Sig, budget: &mut u64) -> bool {
         return false;
     }
     *budget += 1;
+    PROGRESS.fetch_add(1, std::sync::atomic::Ordering::Relaxed);
     let out = run_plan(plan);
     matches!(sig_of(prop, plan, &out), Some((s, _, _)) if s.rule == want.rule && s.callback == want.callback)
 }
@@ -400,6 +401,39 @@ pub fn minimise(prop: &str, plan: &Plan, want: &Sig, runs: &mut u64) -> Plan {
     best
 }
 
+/// Progress of the worker, read by the hang monitor thread: a run that makes no progress for
+/// `HANG_SECS` of wall-clock time is a non-terminating operation (a loop inside the code under
+/// test that makes no callback escapes the callback watchdog).
+pub static PROGRESS: std::sync::atomic::AtomicU64 = std::sync::atomic::AtomicU64::new(0);
+pub static CUR_IDX: std::sync::atomic::AtomicU64 = std::sync::atomic::AtomicU64::new(0);
+/// -1 = the fault-free dry run of the base plan, otherwise the index of the variant
+pub static CUR_VAR: std::sync::atomic::AtomicI64 = std::sync::atomic::AtomicI64::new(-1);
+pub const HANG_SECS: u64 = 30;
+
+/// Starts the monitor thread. When the main thread stops making progress it calls `on_hang(idx, var)`
+/// and ends the process with status 3.
+pub fn start_hang_monitor(on_hang: impl Fn(u64, i64) + Send + 'static) {
+    use std::sync::atomic::Ordering::Relaxed;
+    std::thread::spawn(move || {
+        let mut last = PROGRESS.load(Relaxed);
+        let mut stale = 0u64;
+        loop {
+            std::thread::sleep(std::time::Duration::from_millis(500));
+            let p = PROGRESS.load(Relaxed);
+            if p == last {
+                stale += 1;
+            } else {
+                stale = 0;
+                last = p;
+            }
+            if stale >= 2 * HANG_SECS {
+                on_hang(CUR_IDX.load(Relaxed), CUR_VAR.load(Relaxed));
+                std::process::exit(3);
+            }
+        }
+    });
+}
+
 pub struct WorkerArgs {
     pub prop: String,
     pub thorough: bool,
@@ -429,7 +463,11 @@ pub fn worker(a: &WorkerArgs) -> Stats {
         if let Some(f) = &a.cur_file {
             let _ = std::fs::write(f, serde_json::to_string(&base).unwrap());
         }
+        CUR_IDX.store(idx, std::sync::atomic::Ordering::Relaxed);
+        CUR_VAR.store(-1, std::sync::atomic::Ordering::Relaxed);
+        PROGRESS.fetch_add(1, std::sync::atomic::Ordering::Relaxed);
         let dry = run_plan(&base);
+        PROGRESS.fetch_add(1, std::sync::atomic::Ordering::Relaxed);
         let mut vr = SplitMix(crate::env::mix(a.seed ^ 0xABCD, pn, idx));
         let vars = variants(&a.prop, &base, &dry, &mut vr, a.thorough);
         if st.samples.len() < 2 && !vars.is_empty() && idx % 7 == 0 {
@@ -478,7 +516,10 @@ pub fn worker(a: &WorkerArgs) -> Stats {
             if let Some(f) = &a.cur_file {
                 let _ = std::fs::write(f, serde_json::to_string(v).unwrap());
             }
+            CUR_VAR.store(vi as i64, std::sync::atomic::Ordering::Relaxed);
+            PROGRESS.fetch_add(1, std::sync::atomic::Ordering::Relaxed);
             let out = run_plan(v);
+            PROGRESS.fetch_add(1, std::sync::atomic::Ordering::Relaxed);
             handle(v, &out, &mut st);
         }
         idx += a.stride;
